@@ -85,6 +85,8 @@ func (m mmodel) sig() string {
 type inst struct {
 	env      *h.Env
 	tx       *gorm.DB
+	h        *gorm.DB // handle the writes go through: derive(tx, der)
+	der      int
 	noNested bool
 	strict   bool
 	done     bool
@@ -166,7 +168,7 @@ func (i *inst) applyOp(op int) {
 	key := fmt.Sprintf("k%d", len(i.m.cur))
 	switch op {
 	case opWrite:
-		err := i.tx.Create(&Row{K: key, V: 1}).Error
+		err := i.h.Create(&Row{K: key, V: 1}).Error
 		i.armed = false
 		if i.injected {
 			if !errors.Is(err, recsqlite.ErrInjected) {
@@ -220,7 +222,7 @@ func (i *inst) applyOp(op int) {
 			}()
 			err = i.tx.Transaction(func(tx2 *gorm.DB) error {
 				entered = true
-				if e := tx2.Create(&Row{K: key, V: 1}).Error; e != nil {
+				if e := derive(tx2, i.der).Create(&Row{K: key, V: 1}).Error; e != nil {
 					if !i.injected {
 						i.fail("write failed", "Create(%s) in the nested block: %v", key, e)
 					}
@@ -352,6 +354,7 @@ func (i *inst) release() {
 // mworker owns one environment per configuration.
 type mworker struct {
 	cfg, dial int
+	der       int
 	env       *h.Env
 	replays   int64
 }
@@ -368,7 +371,7 @@ func (w *mworker) start(faultBegin int) *inst {
 		// (sequence, fault point) pair means the same thing in another process
 		p.Reset()
 	}
-	i := &inst{env: w.env, noNested: w.cfg&cfgNoNested != 0, strict: w.dial == dialStrict, faultAt: faultBegin}
+	i := &inst{env: w.env, noNested: w.cfg&cfgNoNested != 0, strict: w.dial == dialStrict, faultAt: faultBegin, der: w.der}
 	i.m.cur = []string{}
 	w.env.Rec.Fault = i.hook
 	i.armed = faultBegin > 0
@@ -398,6 +401,7 @@ func (w *mworker) start(faultBegin int) *inst {
 		i.fail("Begin failed", "%v", i.tx.Error)
 		i.done = true
 	}
+	i.h = derive(i.tx, i.der)
 	return i
 }
 
@@ -493,6 +497,7 @@ type ManualCase struct {
 	Ops      []int  `json:"ops"`
 	Cfg      int    `json:"config_bits"`
 	Dial     int    `json:"dialector"`
+	Derive   int    `json:"derive,omitempty"` // writes go through derive(tx, kind), see deriveName
 	Fault    int    `json:"fault_point_in_last_op"` // 0 = none, k = k-th fault point of the last operation (of Begin if ops is empty)
 	Readable string `json:"readable,omitempty"`
 }
@@ -577,8 +582,8 @@ func (w *mworker) step(path []int, fault int) (r stepResult) {
 // bfs explores all sequences of at most depth operations for one
 // configuration; every transition is additionally executed with a fault at
 // each BEGIN / COMMIT / data statement of its last operation.
-func bfs(cfg, dial, depth int, deadline time.Time) *manualResult {
-	w := &mworker{cfg: cfg, dial: dial}
+func bfs(cfg, dial, der, depth int, deadline time.Time) *manualResult {
+	w := &mworker{cfg: cfg, dial: dial, der: der}
 	res := &manualResult{distinctSigs: map[string]bool{}}
 	type state struct{ path []int }
 	rootSig, err := w.implSig(nil, 0, nil)
@@ -598,7 +603,7 @@ func bfs(cfg, dial, depth int, deadline time.Time) *manualResult {
 			}
 			res.faulted++
 			if r.kind != "" {
-				mc := ManualCase{Part: "manual", Ops: path, Cfg: cfg, Dial: dial, Fault: k, Readable: fmt.Sprintf("%s  [fault at point %d of the last operation]", opsString(path), k)}
+				mc := ManualCase{Part: "manual", Ops: path, Cfg: cfg, Dial: dial, Derive: der, Fault: k, Readable: fmt.Sprintf("%s  [fault at point %d of the last operation]", opsString(path), k)}
 				res.viol = append(res.viol, manualViolation{mc, r.kind, r.detail, r.log})
 			}
 		}
@@ -627,7 +632,7 @@ func bfs(cfg, dial, depth int, deadline time.Time) *manualResult {
 					res.harnessErr = r.harnessErr
 					return res
 				}
-				mc := ManualCase{Part: "manual", Ops: path, Cfg: cfg, Dial: dial, Readable: opsString(path)}
+				mc := ManualCase{Part: "manual", Ops: path, Cfg: cfg, Dial: dial, Derive: der, Readable: opsString(path)}
 				if r.kind != "" {
 					res.viol = append(res.viol, manualViolation{mc, r.kind, r.detail, r.log})
 					continue
@@ -647,7 +652,7 @@ func bfs(cfg, dial, depth int, deadline time.Time) *manualResult {
 					res.withSavepoints++
 				}
 				if len(res.samples) < 3 && r.nsp > 1 && d >= 3 {
-					res.samples = append(res.samples, cfgString(cfg, dial)+" :: "+opsString(path)+" => "+r.sig)
+					res.samples = append(res.samples, cfgString(cfg, dial)+", writes through "+deriveName[der]+" :: "+opsString(path)+" => "+r.sig)
 				}
 				next = append(next, state{path})
 			}
